@@ -361,6 +361,36 @@ func c17Scenarios(tier string) []*world.Scenario {
 		sc.Check = func(w *world.World) []world.Violation { return CheckStreams(w, StreamOpts{}) }
 		out = append(out, sc)
 	}
+	// requests the proxy answers itself do not depend on the slot table: AUTH (whose argument is not a key) and PING on a
+	// topology with an unowned range, with and without a configured password, for 40 arguments spread over all slots
+	for _, pw := range []string{"", "secret"} {
+		var reqs []Req
+		for i := 0; i < 40; i++ {
+			arg := fmt.Sprintf("pw%d", i)
+			if i == 7 {
+				arg = "secret"
+			}
+			reqs = append(reqs, AuthReq(arg, pw))
+			if i%10 == 9 {
+				reqs = append(reqs, PingReq())
+			}
+		}
+		cs := ClientOf(reqs, false)
+		for j := range cs.Chunks {
+			cs.Chunks[j].WaitReplies = j
+		}
+		sc := &world.Scenario{Nodes: Tgap(), Bound: 0, Family: "local-on-gap-topology", Horizon: 2000, InputEnum: true, Password: pw,
+			Name: fmt.Sprintf("C17/auth-on-topology-with-unowned-range/pw=%v", pw != "")}
+		sc.Clients = []world.ClientSpec{cs}
+		sc.Check = func(w *world.World) []world.Violation {
+			vs := CheckStreams(w, StreamOpts{})
+			for i := range vs {
+				vs[i].Sig = "supported-rejected:auth"
+			}
+			return vs
+		}
+		out = append(out, sc)
+	}
 	// sizes around the limit L = 64 (read buffer 4 x L so that the limit, not the buffer, decides)
 	const L = 64
 	for _, total := range []int{L - 1, L, L + 1, L + 40} {
